@@ -1168,13 +1168,24 @@ func Generate(pf *Profile, seed uint64) *Plan {
 		p.Images = append(p.Images, ImageSel{Site: SiteBoundary, Stmt: i, Cont: g.genCont(st, 1)})
 	}
 	if pf.WalStmts > 0 {
-		// prefer multi-row statements
+		// prefer statements that append many records: multi-row statements and,
+		// most of all, statements refused at a later row (rows + compensation)
 		var cands []int
+		exps := map[int]*Expect{}
 		for i, s := range stmts {
 			if s.Kind == KInsert || s.Kind == KUpdate || s.Kind == KDelete {
+				st := s
+				e := models[i].Predict(&st)
+				if !e.OK && e.FailAt <= 0 {
+					continue // refused before its first change: nothing is logged
+				}
+				exps[i] = e
 				cands = append(cands, i)
-				if len(s.Rows) > 1 || s.Kind != KInsert {
+				if e.NOps > 1 {
 					cands = append(cands, i, i)
+				}
+				if e.FailAt > 0 {
+					cands = append(cands, i, i, i, i)
 				}
 			}
 		}
@@ -1185,13 +1196,24 @@ func Generate(pf *Profile, seed uint64) *Plan {
 				continue
 			}
 			used[i] = true
-			s := stmts[i]
-			recs := len(s.Rows) + 2
-			if s.Kind != KInsert {
-				recs = 8
+			e := exps[i]
+			// records the statement appends: one per row operation, twice that
+			// for a statement that takes its rows back, plus catalog records of
+			// root moves; three log events (length, body, and the final fsync) each
+			recs := e.NOps + 2
+			if e.FailAt > 0 {
+				recs = 2*e.FailAt + 3
+			}
+			if recs > 60 {
+				recs = 60
 			}
 			cont := g.genCont(models[i], 1) // generated against the before-state; valid for every prefix
-			for ev := 0; ev < recs*3; ev++ {
+			nev := recs * 3
+			step := 1
+			if nev > 45 {
+				step = 2
+			}
+			for ev := r.Intn(step); ev < nev; ev += step {
 				for _, cs := range []bool{false, true} {
 					p.Images = append(p.Images, ImageSel{Site: SiteWal, Stmt: i, N: ev, CutAtSync: cs, Cont: cont})
 				}
